@@ -25,6 +25,23 @@ pub(crate) trait ToFileTime {
 
 impl ToFileTime for Timestamp {
     fn to_file_time(&self) -> FileTime {
-        FileTime::from_unix_time(self.as_second(), self.subsec_nanosecond().cast_unsigned())
+        let (seconds, nanos) = floor_seconds_and_nanos(self);
+        FileTime::from_unix_time(seconds, nanos)
+    }
+}
+
+/// Split a timestamp into whole seconds, rounded towards negative infinity, and the
+/// non-negative nanoseconds after that second.
+///
+/// This is the form used by Unix file times and by the index. For times before the epoch that
+/// have a fractional part, jiff reports a negative sub-second component, so the seconds must be
+/// rounded down: -1.5s is -2s plus 500_000_000ns.
+pub(crate) fn floor_seconds_and_nanos(timestamp: &Timestamp) -> (i64, u32) {
+    let seconds = timestamp.as_second();
+    let nanos = timestamp.subsec_nanosecond();
+    if nanos < 0 {
+        (seconds - 1, (nanos + 1_000_000_000) as u32)
+    } else {
+        (seconds, nanos as u32)
     }
 }
